@@ -131,7 +131,7 @@ Qed.
 (* ------------------------------------------------------------------ *)
 (** * addHeaders as a composition of its statements *)
 Definition st1 (cfg : config) (peer : str) (h : hmap) : hmap :=
-  cset (negb (sempty (c_clientip cfg)) && negb (beq (c_clientip cfg) K_XFF) && negb (beq (c_clientip cfg) K_XRI))
+  cset (negb (sempty (c_clientip cfg)) && negb (beq (c_clientip cfg) K_XFF))
        h (canon_key (c_clientip cfg)) peer.
 Definition st2 (peer : str) (h : hmap) : hmap := cset (sempty (hget h K_XRI)) h K_XRI peer.
 Definition st3 (peer : str) (h : hmap) : hmap := if is_ws h then xff_append peer h else h.
@@ -155,10 +155,32 @@ Definition upto7 cfg strip r peer h :=
 Definition upto9 cfg strip r peer h :=
   st9 cfg (is_tls r) (st8 cfg r peer (scheme (upto3 cfg peer h) (is_tls r)) (upto7 cfg strip r peer h)).
 
+(* the last statement (since 216337c): unlistManagedHeaders *)
+Definition upto10 cfg strip r peer h := unlist_managed cfg (upto9 cfg strip r peer h).
+
 Lemma add_headers_stages cfg strip r :
   add_headers cfg strip r =
-  match r_peer r with None => Err 0 | Some peer => Ok (upto9 cfg strip r peer (r_hdr r)) end.
+  match r_peer r with None => Err 0 | Some peer => Ok (upto10 cfg strip r peer (r_hdr r)) end.
 Proof. reflexivity. Qed.
+
+(* unlistManagedHeaders touches the Connection header only *)
+Lemma unlist_other cfg h k : K_CONN <> k -> hfind (unlist_managed cfg h) k = hfind h k.
+Proof.
+  intros N. unfold unlist_managed. destruct (hfind h K_CONN) as [vs|]; auto.
+  destruct (existsb _ vs); auto.
+  destruct (flat_map _ vs) as [|v vals].
+  - now apply hfind_hdel_other.
+  - cbn [hfind]. rewrite (beq_false_of_neq k K_CONN) by congruence. now apply hfind_hdel_other.
+Qed.
+
+Lemma wf_unlist cfg h : wf_hdr h = true -> wf_hdr (unlist_managed cfg h) = true.
+Proof.
+  intros W. unfold unlist_managed. destruct (hfind h K_CONN) as [vs|]; auto.
+  destruct (existsb _ vs); auto.
+  destruct (flat_map _ vs) as [|v vals].
+  - now apply wf_hdel.
+  - cbn [wf_hdr forallb snd]. now apply wf_hdel.
+Qed.
 
 (* frame lemmas: each statement touches one key *)
 Lemma st1_other cfg peer h k : k <> canon_key (c_clientip cfg) \/ c_clientip cfg = [] ->
@@ -234,9 +256,12 @@ Qed.
 (* ------------------------------------------------------------------ *)
 (** * Clauses at the level of addHeaders (all inputs, all configurations) *)
 
+Lemma wf_upto10 cfg strip r peer h : wf_hdr h = true -> wf_hdr (upto10 cfg strip r peer h) = true.
+Proof. intros W. unfold upto10. now apply wf_unlist, wf_upto9. Qed.
+
 Lemma add_headers_ok cfg strip r h' :
   add_headers cfg strip r = Ok h' ->
-  exists peer, r_peer r = Some peer /\ h' = upto9 cfg strip r peer (r_hdr r).
+  exists peer, r_peer r = Some peer /\ h' = upto10 cfg strip r peer (r_hdr r).
 Proof.
   rewrite add_headers_stages. destruct (r_peer r) as [peer|]; [|discriminate].
   intros H. inversion H. eauto.
@@ -245,9 +270,11 @@ Qed.
 (* the TLS header is the last statement: nothing the client sent survives it *)
 Theorem tls_header_iff_tls cfg strip r h' :
   add_headers cfg strip r = Ok h' -> c_tlsheader cfg <> [] ->
+  canon_key (c_tlsheader cfg) <> K_CONN ->
   hfind h' (canon_key (c_tlsheader cfg)) = if is_tls r then Some [c_tlsvalue cfg] else None.
 Proof.
-  intros H N. apply add_headers_ok in H as (peer & _ & ->). unfold upto9, st9.
+  intros H N NC. apply add_headers_ok in H as (peer & _ & ->).
+  unfold upto10. rewrite unlist_other by congruence. unfold upto9, st9.
   destruct (c_tlsheader cfg) eqn:E; [congruence|]. cbn [sempty].
   destruct (is_tls r); [apply hfind_hset_same | apply hfind_hdel_same].
 Qed.
@@ -277,6 +304,24 @@ Lemma neq_XFPREFIX_FWD : K_XFPREFIX <> K_FWD. Proof. kne. Qed.
   neq_XFF_XFP neq_XFF_XFPORT neq_XFF_XFH neq_XFF_XFPREFIX neq_XFF_FWD neq_XFP_XFPORT neq_XFP_XFH
   neq_XFP_XFPREFIX neq_XFP_FWD neq_XFPORT_XFH neq_XFPORT_XFPREFIX neq_XFPORT_FWD neq_XFH_XFPREFIX
   neq_XFH_FWD neq_XFPREFIX_FWD : keys.
+Lemma neq_UP_XFF : K_UPGRADE <> K_XFF. Proof. kne. Qed.
+Lemma neq_UP_XRI : K_UPGRADE <> K_XRI. Proof. kne. Qed.
+Lemma neq_UP_XFP : K_UPGRADE <> K_XFP. Proof. kne. Qed.
+Lemma neq_UP_XFPORT : K_UPGRADE <> K_XFPORT. Proof. kne. Qed.
+Lemma neq_UP_XFH : K_UPGRADE <> K_XFH. Proof. kne. Qed.
+Lemma neq_UP_XFPREFIX : K_UPGRADE <> K_XFPREFIX. Proof. kne. Qed.
+Lemma neq_UP_FWD : K_UPGRADE <> K_FWD. Proof. kne. Qed.
+Lemma neq_CONN_XFF : K_CONN <> K_XFF. Proof. kne. Qed.
+Lemma neq_CONN_XRI : K_CONN <> K_XRI. Proof. kne. Qed.
+Lemma neq_CONN_XFP : K_CONN <> K_XFP. Proof. kne. Qed.
+Lemma neq_CONN_XFPORT : K_CONN <> K_XFPORT. Proof. kne. Qed.
+Lemma neq_CONN_XFH : K_CONN <> K_XFH. Proof. kne. Qed.
+Lemma neq_CONN_XFPREFIX : K_CONN <> K_XFPREFIX. Proof. kne. Qed.
+Lemma neq_CONN_FWD : K_CONN <> K_FWD. Proof. kne. Qed.
+#[local] Hint Resolve neq_UP_XFF neq_UP_XRI neq_UP_XFP neq_UP_XFPORT neq_UP_XFH neq_UP_XFPREFIX neq_UP_FWD
+  neq_CONN_XFF neq_CONN_XRI neq_CONN_XFP neq_CONN_XFPORT neq_CONN_XFH neq_CONN_XFPREFIX neq_CONN_FWD : keys.
+Lemma neq_CONN_UP : K_CONN <> K_UPGRADE. Proof. kne. Qed.
+#[local] Hint Resolve neq_CONN_UP : keys.
 #[local] Hint Extern 1 (?a <> ?b) => (apply not_eq_sym; auto with keys; fail) : keys.
 
 (* "k differs from the configured name, or no name is configured" *)
@@ -288,23 +333,26 @@ Lemma st9_off cfg tls h k : off k (c_tlsheader cfg) -> hfind (st9 cfg tls h) k =
 Proof. intros [E|N]; apply st9_other; [now right|left; congruence]. Qed.
 
 Lemma st1_cond_true cfg :
-  c_clientip cfg <> [] -> c_clientip cfg <> K_XFF -> c_clientip cfg <> K_XRI ->
-  negb (sempty (c_clientip cfg)) && negb (beq (c_clientip cfg) K_XFF) && negb (beq (c_clientip cfg) K_XRI) = true.
+  c_clientip cfg <> [] -> c_clientip cfg <> K_XFF ->
+  negb (sempty (c_clientip cfg)) && negb (beq (c_clientip cfg) K_XFF) = true.
 Proof.
-  intros A B C. rewrite (beq_false_of_neq _ _ B), (beq_false_of_neq _ _ C).
+  intros A B. rewrite (beq_false_of_neq _ _ B).
   destruct (c_clientip cfg); [congruence|reflexivity].
 Qed.
 
 (* The configured client-IP header is overwritten (Set, not Add) with the peer, whatever
-   the client sent under that name, in whatever spelling the name is configured. *)
+   the client sent under that name, in whatever spelling the name is configured --
+   "X-Real-Ip" included since the repair 35aa11b. *)
 Theorem clientip_overwritten cfg strip r peer h' :
   add_headers cfg strip r = Ok h' -> r_peer r = Some peer ->
-  c_clientip cfg <> [] -> c_clientip cfg <> K_XFF -> c_clientip cfg <> K_XRI ->
+  c_clientip cfg <> [] -> c_clientip cfg <> K_XFF ->
   mem (canon_key (c_clientip cfg)) [K_XFF; K_XFP; K_XFPORT; K_XFH; K_XFPREFIX; K_FWD] = false ->
+  canon_key (c_clientip cfg) <> K_CONN ->
   off (canon_key (c_clientip cfg)) (c_tlsheader cfg) ->
   hfind h' (canon_key (c_clientip cfg)) = Some [peer].
 Proof.
-  intros H P A B C M T. apply add_headers_ok in H as (peer' & P' & ->).
+  intros H P A B M NC T. apply add_headers_ok in H as (peer' & P' & ->).
+  unfold upto10. rewrite unlist_other by congruence.
   assert (peer' = peer) by congruence. subst peer'.
   set (k := canon_key (c_clientip cfg)) in *.
   assert (N1 : k <> K_XFF) by (apply (mem_false_neq _ _ _ M); cbn; auto).
@@ -330,7 +378,7 @@ Theorem xrealip_rule cfg strip r peer h' :
   hfind h' K_XRI = Some [peer] \/
   (hget (r_hdr r) K_XRI <> [] /\ hfind h' K_XRI = hfind (r_hdr r) K_XRI).
 Proof.
-  intros H P T. apply add_headers_ok in H as (peer' & P' & ->).
+  intros H P T. apply add_headers_ok in H as (peer' & P' & ->). unfold upto10; rewrite ?unlist_other by auto with keys.
   assert (peer' = peer) by congruence. subst peer'.
   unfold upto9, upto7, upto3.
   rewrite st9_off by exact T. rewrite st4to8_other by auto with keys.
@@ -338,7 +386,7 @@ Proof.
   unfold st2. destruct (sempty (hget (st1 cfg peer (r_hdr r)) K_XRI)) eqn:E; cbn [cset].
   - left. apply hfind_hset_same.
   - unfold st1 in *.
-    destruct (negb (sempty (c_clientip cfg)) && negb (beq (c_clientip cfg) K_XFF) && negb (beq (c_clientip cfg) K_XRI));
+    destruct (negb (sempty (c_clientip cfg)) && negb (beq (c_clientip cfg) K_XFF));
       cbn [cset] in *.
     + destruct (beq (canon_key (c_clientip cfg)) K_XRI) eqn:EK.
       * apply beq_eq in EK. rewrite EK. left. apply hfind_hset_same.
@@ -406,7 +454,7 @@ Theorem forwarded_appends_only cfg strip r h' :
   hget (r_hdr r) K_FWD <> [] ->
   hfind h' K_FWD = Some [hget (r_hdr r) K_FWD ++ fwd_items cfg r].
 Proof.
-  intros H T C NE. apply add_headers_ok in H as (peer & P & ->).
+  intros H T C NE. apply add_headers_ok in H as (peer & P & ->). unfold upto10; rewrite ?unlist_other by auto with keys.
   rewrite final_fwd by exact T. rewrite forwarded_value_eq.
   rewrite (hget_eq _ (r_hdr r) K_FWD).
   2:{ apply upto7_other; auto with keys. }
@@ -440,7 +488,7 @@ Theorem proto_truthful cfg strip r h' :
   off K_XFP (c_clientip cfg) -> off K_FWD (c_clientip cfg) -> off K_XFP (c_tlsheader cfg) ->
   hfind h' K_XFP = Some [true_scheme (is_tls r)].
 Proof.
-  intros H F C1 C2 T. apply add_headers_ok in H as (peer & P & ->).
+  intros H F C1 C2 T. apply add_headers_ok in H as (peer & P & ->). unfold upto10; rewrite ?unlist_other by auto with keys.
   destruct (upto3_fresh cfg peer _ F C1 C2) as [A B].
   unfold upto9, upto7. rewrite st9_off by exact T.
   rewrite st8_other, st7_other, st6_other, st5_other by auto with keys.
@@ -453,7 +501,7 @@ Theorem port_truthful cfg strip r h' :
   off K_XFPORT (c_clientip cfg) -> off K_XFPORT (c_tlsheader cfg) ->
   hfind h' K_XFPORT = Some [local_port (r_host r) (is_tls r)].
 Proof.
-  intros H F C T. apply add_headers_ok in H as (peer & P & ->).
+  intros H F C T. apply add_headers_ok in H as (peer & P & ->). unfold upto10; rewrite ?unlist_other by auto with keys.
   unfold upto9, upto7. rewrite st9_off by exact T.
   rewrite st8_other, st7_other, st6_other by auto with keys.
   unfold st5. rewrite (hget_eq _ (r_hdr r)).
@@ -466,7 +514,7 @@ Theorem host_truthful cfg strip r h' :
   off K_XFH (c_clientip cfg) -> off K_XFH (c_tlsheader cfg) ->
   hfind h' K_XFH = Some [r_host r].
 Proof.
-  intros H F NE C T. apply add_headers_ok in H as (peer & P & ->).
+  intros H F NE C T. apply add_headers_ok in H as (peer & P & ->). unfold upto10; rewrite ?unlist_other by auto with keys.
   unfold upto9, upto7. rewrite st9_off by exact T.
   rewrite st8_other, st7_other by auto with keys.
   unfold st6. rewrite (hget_eq _ (r_hdr r)).
@@ -480,7 +528,7 @@ Theorem forwarded_fresh cfg strip r peer h' :
   exists p, In p (if is_tls r then [bs "https"; bs "wss"] else [bs "http"; bs "ws"]) /\
             hfind h' K_FWD = Some [(bs "for=" ++ peer ++ bs "; proto=" ++ p) ++ fwd_items cfg r].
 Proof.
-  intros H P F C1 C2 T. apply add_headers_ok in H as (peer' & P' & ->).
+  intros H P F C1 C2 T. apply add_headers_ok in H as (peer' & P' & ->). unfold upto10; rewrite ?unlist_other by auto with keys.
   assert (peer' = peer) by congruence. subst peer'.
   destruct (upto3_fresh cfg peer _ F C1 C2) as [A B].
   rewrite final_fwd by exact T. rewrite forwarded_value_eq.
@@ -590,22 +638,6 @@ Proof.
   rewrite E. apply not_eq_sym. apply (mem_false_neq _ _ _ Hp). exact I.
 Qed.
 
-Lemma neq_UP_XFF : K_UPGRADE <> K_XFF. Proof. kne. Qed.
-Lemma neq_UP_XRI : K_UPGRADE <> K_XRI. Proof. kne. Qed.
-Lemma neq_UP_XFP : K_UPGRADE <> K_XFP. Proof. kne. Qed.
-Lemma neq_UP_XFPORT : K_UPGRADE <> K_XFPORT. Proof. kne. Qed.
-Lemma neq_UP_XFH : K_UPGRADE <> K_XFH. Proof. kne. Qed.
-Lemma neq_UP_XFPREFIX : K_UPGRADE <> K_XFPREFIX. Proof. kne. Qed.
-Lemma neq_UP_FWD : K_UPGRADE <> K_FWD. Proof. kne. Qed.
-Lemma neq_CONN_XFF : K_CONN <> K_XFF. Proof. kne. Qed.
-Lemma neq_CONN_XRI : K_CONN <> K_XRI. Proof. kne. Qed.
-Lemma neq_CONN_XFP : K_CONN <> K_XFP. Proof. kne. Qed.
-Lemma neq_CONN_XFPORT : K_CONN <> K_XFPORT. Proof. kne. Qed.
-Lemma neq_CONN_XFH : K_CONN <> K_XFH. Proof. kne. Qed.
-Lemma neq_CONN_XFPREFIX : K_CONN <> K_XFPREFIX. Proof. kne. Qed.
-Lemma neq_CONN_FWD : K_CONN <> K_FWD. Proof. kne. Qed.
-#[local] Hint Resolve neq_UP_XFF neq_UP_XRI neq_UP_XFP neq_UP_XFPORT neq_UP_XFH neq_UP_XFPREFIX neq_UP_FWD
-  neq_CONN_XFF neq_CONN_XRI neq_CONN_XFP neq_CONN_XFPORT neq_CONN_XFH neq_CONN_XFPREFIX neq_CONN_FWD : keys.
 
 (* a key no statement of ServeHTTP/addHeaders writes is the client's own at every stage *)
 Lemma upto2_other cfg peer h k :
@@ -646,18 +678,20 @@ Proof.
   set (r' := req_with_reqid cfg uuid r) in *.
   set (h0 := r_hdr r').
   assert (W0 : wf_hdr h0 = true) by (apply wf_cset; exact W).
-  assert (Wh : wf_hdr (upto9 cfg (t_strip t) r' peer h0) = true) by (now apply wf_upto9).
+  assert (Wh : wf_hdr (upto10 cfg (t_strip t) r' peer h0) = true) by (now apply wf_upto10).
   unfold cl_xff.
-  destruct (takes_ws_path (upto9 cfg (t_strip t) r' peer h0)) eqn:WS.
+  destruct (takes_ws_path (upto10 cfg (t_strip t) r' peer h0)) eqn:WS.
   2:{ destruct (rp_out_xff peer _ Wh) as (v & E & L). rewrite E. exact L. }
   rewrite wire_id by exact Wh.
   (* the Upgrade header is the client's at every stage *)
-  assert (U9 : hget (upto9 cfg (t_strip t) r' peer h0) K_UPGRADE = hget (r_hdr r) K_UPGRADE).
-  { apply hget_eq. rewrite upto9_other by auto with keys. apply reqid_off. exact R2. }
+  assert (U9 : hget (upto10 cfg (t_strip t) r' peer h0) K_UPGRADE = hget (r_hdr r) K_UPGRADE).
+  { apply hget_eq. unfold upto10. rewrite unlist_other by kne.
+    rewrite upto9_other by auto with keys. apply reqid_off. exact R2. }
   assert (U2 : hget (st2 peer (st1 cfg peer h0)) K_UPGRADE = hget (r_hdr r) K_UPGRADE).
   { apply hget_eq. rewrite upto2_other by auto with keys. apply reqid_off. exact R2. }
   unfold takes_ws_path in WS. rewrite U9 in WS.
   assert (I : is_ws (st2 peer (st1 cfg peer h0)) = true) by (unfold is_ws; rewrite U2; exact WS).
+  unfold upto10. rewrite unlist_other by auto with keys.
   unfold upto9, upto7, upto3. rewrite st9_off by exact T1.
   rewrite st4to8_other by auto with keys.
   unfold st3. rewrite I.
@@ -665,26 +699,137 @@ Proof.
   destruct (xff_append_last peer _ (wf_hfind _ K_XFF W2)) as (v & E & L). rewrite E. exact L.
 Qed.
 
-(* whatever addHeaders decided for a managed header reaches the upstream unchanged, unless
-   (plain requests) the client's Connection header names it *)
+(* ---- strings.Split / strings.Join ---- *)
+Lemma split_byte_no_sep s c : forall x, In x (split_byte s c) -> ~ In c x.
+Proof.
+  induction s as [|y s IH]; cbn [split_byte]; intros x I.
+  - destruct I as [<-|[]]. intros [].
+  - destruct (y =? c) eqn:E.
+    + destruct I as [<-|I]; [intros []|now apply IH].
+    + destruct (split_byte s c) as [|w ws] eqn:S.
+      * destruct I as [<-|[]]. intros [Z|[]]. subst. rewrite N.eqb_refl in E. discriminate.
+      * destruct I as [<-|I].
+        -- intros [Z|Z]; [subst; rewrite N.eqb_refl in E; discriminate|].
+           apply (IH w); [now left|exact Z].
+        -- apply IH. now right.
+Qed.
+
+Lemma split_byte_single a c : ~ In c a -> split_byte a c = [a].
+Proof.
+  induction a as [|x a IH]; cbn [split_byte]; intros N; auto.
+  destruct (x =? c) eqn:E; [apply N.eqb_eq in E; subst; exfalso; apply N; now left|].
+  rewrite IH; auto. intros I. apply N. now right.
+Qed.
+
+Lemma split_byte_app a c rest : ~ In c a -> split_byte (a ++ c :: rest) c = a :: split_byte rest c.
+Proof.
+  induction a as [|x a IH]; cbn [app split_byte]; intros N.
+  - now rewrite N.eqb_refl.
+  - destruct (x =? c) eqn:E; [apply N.eqb_eq in E; subst; exfalso; apply N; now left|].
+    rewrite IH; auto. intros I. apply N. now right.
+Qed.
+
+(* Split(Join(toks, ","), ",") = toks when no token contains the separator *)
+Lemma split_join c : forall toks, toks <> [] -> (forall x, In x toks -> ~ In c x) ->
+  split_byte (join toks [c]) c = toks.
+Proof.
+  induction toks as [|x toks IH]; intros NE H; [congruence|].
+  destruct toks as [|y toks].
+  - cbn [join]. apply split_byte_single. apply H. now left.
+  - change (join (x :: y :: toks) [c]) with (x ++ c :: join (y :: toks) [c]).
+    rewrite split_byte_app by (apply H; now left).
+    f_equal. apply IH; [discriminate|]. intros z I. apply H. now right.
+Qed.
+
+Lemma existsb_false_forall {A} (f : A -> bool) l : existsb f l = false -> forall x, In x l -> f x = false.
+Proof.
+  intros H x I. destruct (f x) eqn:E; auto.
+  assert (existsb f l = true) by (apply existsb_exists; eauto). congruence.
+Qed.
+
+(* ---- unlistManagedHeaders: afterwards NO Connection token names a managed header ---- *)
+Lemma tokens_unmanaged cfg vs :
+  (forall v s, In v vs -> In s (split_byte v 44) -> managed_token cfg s = false) ->
+  forall x, In x (flat_map (fun f => filter (fun s => negb (sempty s)) (map trim (split_byte f 44))) vs) ->
+  managed_key cfg (canon_key x) = false.
+Proof.
+  intros H x I. apply in_flat_map in I as (v & Iv & I). apply filter_In in I as [I _].
+  apply in_map_iff in I as (s & <- & Is). exact (H v s Iv Is).
+Qed.
+
+Theorem unlist_tokens_unmanaged cfg h x :
+  In x (conn_tokens (unlist_managed cfg h)) -> managed_key cfg (canon_key x) = false.
+Proof.
+  unfold unlist_managed. destruct (hfind h K_CONN) as [vs|] eqn:E.
+  2:{ unfold conn_tokens. rewrite E. intros []. }
+  destruct (existsb (fun v => existsb (managed_token cfg) (split_byte v 44)) vs) eqn:L.
+  - remember (flat_map (fun v => match kept_tokens cfg v with [] => [] | _ :: _ => [join (kept_tokens cfg v) [44]] end) vs) as vals eqn:V.
+    assert (HV : forall v s, In v vals -> In s (split_byte v 44) -> managed_token cfg s = false).
+    { intros v s Iv Is. rewrite V in Iv. apply in_flat_map in Iv as (v0 & I0 & Iv).
+      destruct (kept_tokens cfg v0) as [|t0 ts] eqn:K; [destruct Iv|].
+      destruct Iv as [<-|[]]. rewrite split_join in Is.
+      - rewrite <- K in Is. unfold kept_tokens in Is. apply filter_In in Is as [_ Is].
+        now apply negb_true_iff in Is.
+      - discriminate.
+      - intros y Iy. rewrite <- K in Iy. apply filter_In in Iy as [Iy _].
+        now apply (split_byte_no_sep v0 44). }
+    assert (EQ : flat_map (fun v => match kept_tokens cfg v with [] => [] | toks => [join toks [44]] end) vs = vals).
+    { rewrite V. apply flat_map_ext. intros v. destruct (kept_tokens cfg v); reflexivity. }
+    rewrite EQ. destruct vals as [|v1 vals'].
+    + unfold conn_tokens. rewrite hfind_hdel_same. intros [].
+    + unfold conn_tokens. cbn [hfind]. rewrite beq_refl. apply tokens_unmanaged. exact HV.
+  - unfold conn_tokens. rewrite E. apply tokens_unmanaged. intros v s Iv Is.
+    exact (existsb_false_forall _ _ (existsb_false_forall _ _ L v Iv) s Is).
+Qed.
+
+(* After the reverse proxy's hop-by-hop deletion every managed header survives, for ANY
+   Connection header the client sent (any case, spacing, repetition, several values): the
+   header map handed to ReverseProxy is [unlist_managed cfg h]. *)
+Theorem rp_keeps_managed cfg peer h k :
+  managed_key cfg k = true -> k <> K_XFF -> mem k hop_headers = false ->
+  hfind (rp_out peer (unlist_managed cfg h)) k = hfind h k.
+Proof.
+  intros M N Hp. rewrite rp_out_other; auto.
+  - apply unlist_other. apply not_eq_sym. apply (mem_false_neq _ _ _ Hp). vm_compute. auto.
+  - intros x I E. apply unlist_tokens_unmanaged in I. rewrite E in I. congruence.
+Qed.
+
+(* whatever addHeaders decided for a managed header reaches the upstream unchanged, on the
+   websocket path and through the (modelled) ReverseProxy, whatever Connection says *)
 Theorem serve_preserves cfg t uuid r up sts k :
   serve cfg t uuid r = Ok (up, sts) -> wf_hdr (r_hdr r) = true ->
+  managed_key cfg k = true -> k <> K_XFF -> mem k hop_headers = false ->
   exists peer h, r_peer r = Some peer /\
     add_headers cfg (t_strip t) (req_with_reqid cfg uuid r) = Ok h /\
-    (k <> K_XFF -> mem k hop_headers = false ->
-     (takes_ws_path h = true \/ forall x, In x (conn_tokens h) -> canon_key x <> k) ->
-     hfind up k = hfind h k).
+    hfind up k = hfind h k.
 Proof.
-  intros S W. apply serve_inv in S as (peer & h & P & A & -> & _).
+  intros S W M N Hp. apply serve_inv in S as (peer & h & P & A & -> & _).
   exists peer, h. split; [exact P|]. split; [exact A|].
-  intros N Hp D.
   apply add_headers_ok in A as (peer' & _ & ->).
   set (r' := req_with_reqid cfg uuid r) in *.
-  assert (Wh : wf_hdr (upto9 cfg (t_strip t) r' peer' (r_hdr r')) = true).
-  { apply wf_upto9. apply wf_cset. exact W. }
+  assert (Wh : wf_hdr (upto10 cfg (t_strip t) r' peer' (r_hdr r')) = true).
+  { apply wf_upto10. apply wf_cset. exact W. }
   destruct (takes_ws_path _) eqn:WS.
   - now rewrite wire_id.
-  - destruct D as [D|D]; [discriminate|]. now apply rp_out_other.
+  - unfold upto10. rewrite rp_keeps_managed by assumption.
+    symmetry. apply unlist_other. apply not_eq_sym. apply (mem_false_neq _ _ _ Hp). vm_compute. auto.
+Qed.
+
+Lemma canon_nonempty s : s <> [] -> canon_key s <> [].
+Proof.
+  destruct s as [|c s]; [congruence|]. intros _. unfold canon_key.
+  destruct (forallb is_token_byte (c :: s)); cbn [canon_go]; discriminate.
+Qed.
+
+Lemma managed_configured cfg name :
+  name <> [] -> (name = c_clientip cfg \/ name = c_tlsheader cfg) ->
+  managed_key cfg (canon_key name) = true.
+Proof.
+  intros NE D.
+  assert (NZ : sempty (canon_key name) = false).
+  { destruct (canon_key name) eqn:E; [now apply canon_nonempty in E|reflexivity]. }
+  unfold managed_key. rewrite NZ. cbn [negb andb].
+  destruct D as [<-|<-]; rewrite beq_refl; rewrite ?orb_true_r; reflexivity.
 Qed.
 
 (* HSTS at the client only on TLS connections, end to end *)
@@ -696,8 +841,18 @@ Proof.
 Qed.
 
 (* ------------------------------------------------------------------ *)
-(** * Refutations: concrete witnesses inside the finding regions (two open ones on the
-    current code; F-C08-1 / F-C08-2 on the definitions as they were before the repairs 7dd13e1 / afbb806) *)
+(** * Refutations: concrete witnesses inside the four former finding regions, each on the
+    definitions as they were before its repair (7dd13e1, afbb806, 35aa11b, 216337c), each paired
+    with the same witness on the current model, where the clause holds *)
+
+(* the faithful [add_headers] is the (current guard, unlist_managed) instance of the
+   parametrised definition the unrepaired variants are instances of *)
+Lemma add_headers_is_instance cfg strip r :
+  add_headers cfg strip r = add_headers_with guard_current unlist_managed cfg strip r.
+Proof. reflexivity. Qed.
+Lemma serve_is_instance cfg t uuid r :
+  serve cfg t uuid r = serve_with add_headers cfg t uuid r.
+Proof. reflexivity. Qed.
 Definition ex_cfg : config :=
   {| c_clientip := bs "X-Client-Ip"; c_tlsheader := bs "X-Tls"; c_tlsvalue := bs "true"; c_localip := [];
      c_reqid := []; c_sts_maxage := 31536000%Z; c_sts_sub := false; c_sts_preload := false |}.
@@ -761,11 +916,12 @@ Example xff_capital_websocket_repaired :
     hfind up K_XFF = Some [bs "6.6.6.6, 1.2.3.4"] /\ cl_xff up ex_peer = true.
 Proof. eexists. eexists. witness. Qed.
 
-(* F-C08-3: ClientIPHeader = "X-Real-Ip" and a forged X-Real-Ip *)
+(* F-C08-3 (REPAIRED in /repo by 35aa11b): ClientIPHeader = "X-Real-Ip" and a forged X-Real-Ip,
+   on the code as it was before the repair ([serve_xri_guard_unrepaired]) *)
 Theorem clientip_xrealip_refuted :
   exists cfg t uuid r up sts,
     cfg_sane cfg = true /\ wf_hdr (r_hdr r) = true /\
-    serve cfg t uuid r = Ok (up, sts) /\
+    serve_xri_guard_unrepaired cfg t uuid r = Ok (up, sts) /\
     F_cih_xrealip_forged cfg (r_hdr r) = true /\
     hfind up (canon_key (c_clientip cfg)) = Some [bs "6.6.6.6"] /\ cl_clientip cfg up ex_peer = false.
 Proof.
@@ -773,7 +929,15 @@ Proof.
   eexists. eexists. witness.
 Qed.
 
-(* ... while the lower-case spelling of the same name is overwritten *)
+(* ... the same request on the current code: overwritten with the peer, as every other
+   spelling of the name always was *)
+Example clientip_xrealip_repaired :
+  exists up sts,
+    serve ex_cfg_xri (ex_tgt []) [] (ex_req None [(K_XRI, [bs "6.6.6.6"])]) = Ok (up, sts) /\
+    F_cih_xrealip_forged ex_cfg_xri [(K_XRI, [bs "6.6.6.6"])] = true /\
+    hfind up K_XRI = Some [ex_peer] /\ cl_clientip ex_cfg_xri up ex_peer = true.
+Proof. eexists. eexists. witness. Qed.
+
 Example clientip_xrealip_lowercase_overwritten :
   let cfg := {| c_clientip := bs "x-real-ip"; c_tlsheader := []; c_tlsvalue := []; c_localip := [];
                 c_reqid := []; c_sts_maxage := 0%Z; c_sts_sub := false; c_sts_preload := false |} in
@@ -781,31 +945,61 @@ Example clientip_xrealip_lowercase_overwritten :
                  hfind up K_XRI = Some [ex_peer].
 Proof. cbv zeta. eexists. eexists. witness. Qed.
 
-(* F-C08-4: Connection names the configured client-IP header and X-Real-Ip (TLS request:
-   the TLS header is stripped the same way) *)
+(* F-C08-4 (REPAIRED in /repo by 216337c): Connection names the configured client-IP header,
+   X-Real-Ip and (TLS request) the TLS header, on the code as it was before the repair
+   ([serve_conn_unrepaired]) *)
+Definition ex_conn_hdr : hmap := [(K_CONN, [bs "X-Client-Ip, X-Real-Ip"; bs "x-tls"])].
+
 Theorem connection_strips_managed_refuted :
   exists cfg t uuid r up sts,
     cfg_sane cfg = true /\ wf_hdr (r_hdr r) = true /\
-    serve cfg t uuid r = Ok (up, sts) /\
+    serve_conn_unrepaired cfg t uuid r = Ok (up, sts) /\
     F_conn_lists (r_hdr r) (canon_key (c_clientip cfg)) = true /\
     hfind up (canon_key (c_clientip cfg)) = None /\ hfind up K_XRI = None /\
     hfind up (canon_key (c_tlsheader cfg)) = None /\ is_tls r = true /\
     cl_clientip cfg up ex_peer = false /\ cl_xri (r_hdr r) up ex_peer = false /\
     cl_tls cfg (is_tls r) up = false.
 Proof.
-  exists ex_cfg, (ex_tgt []), [],
-    (ex_req (Some (771, 4865)) [(K_CONN, [bs "X-Client-Ip, X-Real-Ip"; bs "x-tls"])]).
+  exists ex_cfg, (ex_tgt []), [], (ex_req (Some (771, 4865)) ex_conn_hdr).
   eexists. eexists. witness.
 Qed.
 
-(* non-vacuity: a request full of forged managed headers lies outside every region, and
-   there every clause holds *)
+(* ... the same request on the current code: all three reach the upstream *)
+Example connection_strips_managed_repaired :
+  let r := ex_req (Some (771, 4865)) ex_conn_hdr in
+  exists up sts,
+    serve ex_cfg (ex_tgt []) [] r = Ok (up, sts) /\
+    F_conn_lists (r_hdr r) (canon_key (c_clientip ex_cfg)) = true /\
+    hfind up (bs "X-Client-Ip") = Some [ex_peer] /\ hfind up K_XRI = Some [ex_peer] /\
+    hfind up (bs "X-Tls") = Some [bs "true"] /\
+    all_hold (clauses ex_cfg (r_hdr r) ex_peer (r_host r) true true up) = true.
+Proof. cbv zeta. eexists. eexists. witness. Qed.
+
+(* unlistManagedHeaders on a Connection header with odd case, spacing, empty tokens and several
+   values: unmanaged tokens are kept verbatim, a value left without tokens is dropped *)
+Example unlist_example :
+  hfind (unlist_managed ex_cfg
+           [(K_CONN, [bs "keep-alive , x-CLIENT-ip,X-Forwarded-For,, X-Real-Ip "; bs " X-TLS"; bs "close"])]) K_CONN
+  = Some [bs "keep-alive ,X-Forwarded-For,"; bs "close"].
+Proof. vm_compute. reflexivity. Qed.
+
+Example unlist_untouched :
+  let h := [(K_CONN, [bs "keep-alive , X-Forwarded-For"; bs ""])] in unlist_managed ex_cfg h = h.
+Proof. vm_compute. reflexivity. Qed.
+
+Example unlist_deletes :
+  hfind (unlist_managed ex_cfg [(K_CONN, [bs "X-Real-Ip"; bs " forwarded"])]) K_CONN = None.
+Proof. vm_compute. reflexivity. Qed.
+
+(* non-vacuity: a request full of forged managed headers whose Connection header names managed
+   headers in odd case and spacing, X-Forwarded-For included; every clause holds *)
 Example clauses_nonvacuous :
   let hdr := [(K_XFF, [bs "6.6.6.6"; bs "7.7.7.7"]); (bs "X-Client-Ip", [bs "6.6.6.6"; bs "8.8.8.8"]);
-              (bs "X-Tls", [bs "true"]); (K_XRI, [[]; bs "6.6.6.6"]); (K_CONN, [bs "keep-alive, X-Forwarded-For"])] in
+              (bs "X-Tls", [bs "true"]); (K_XRI, [[]; bs "6.6.6.6"]);
+              (K_CONN, [bs "keep-alive, X-Forwarded-For ,x-client-ip"; bs " X-TLS,X-REAL-IP"])] in
   let r := ex_req None hdr in
   exists up sts,
-    cfg_sane ex_cfg = true /\ wf_hdr hdr = true /\ no_region ex_cfg hdr = true /\
+    cfg_sane ex_cfg = true /\ wf_hdr hdr = true /\
     serve ex_cfg (ex_tgt []) [] r = Ok (up, sts) /\
     all_hold (clauses ex_cfg hdr ex_peer (r_host r) false true up) = true /\
     hfind up K_XFF = Some [bs "1.2.3.4"] /\ hfind up (bs "X-Client-Ip") = Some [ex_peer] /\
@@ -813,7 +1007,7 @@ Example clauses_nonvacuous :
 Proof. cbv zeta. eexists. eexists. witness. Qed.
 
 (* ------------------------------------------------------------------ *)
-(** * Outside the four regions every clause holds at the upstream *)
+(** * Every clause holds at the upstream (no finding region is left) *)
 
 Lemma mem_app k a b : mem k (a ++ b) = mem k a || mem k b.
 Proof. unfold mem. apply existsb_app. Qed.
@@ -889,7 +1083,7 @@ Lemma forwarded_general cfg strip r peer h' :
   off K_FWD (c_tlsheader cfg) -> off K_FWD (c_clientip cfg) -> hget (r_hdr r) K_FWD = [] ->
   exists p, hfind h' K_FWD = Some [(bs "for=" ++ peer ++ bs "; proto=" ++ p) ++ fwd_items cfg r].
 Proof.
-  intros H P T C F. apply add_headers_ok in H as (peer' & P' & ->).
+  intros H P T C F. apply add_headers_ok in H as (peer' & P' & ->). unfold upto10; rewrite ?unlist_other by auto with keys.
   assert (peer' = peer) by congruence. subst peer'.
   rewrite final_fwd by exact T. rewrite forwarded_value_eq.
   rewrite (hget_eq (upto7 cfg strip r peer (r_hdr r)) (r_hdr r) K_FWD).
@@ -900,17 +1094,11 @@ Qed.
 Lemma veq_eq a b : veq a b = true <-> a = b.
 Proof. unfold veq. apply opt_eqb_eq. intros x y. apply list_eqb_eq. apply beq_eq. Qed.
 
-Lemma existsb_false_forall {A} (f : A -> bool) l : existsb f l = false -> forall x, In x l -> f x = false.
-Proof.
-  intros H x I. destruct (f x) eqn:E; auto.
-  assert (existsb f l = true) by (apply existsb_exists; eauto). congruence.
-Qed.
 
 Section OnDomain.
   Variables (cfg : config) (t : target) (uuid : str) (r : request) (peer : str) (up : hmap) (sts : option str).
   Hypothesis SANE : cfg_sane cfg = true.
   Hypothesis WF : wf_hdr (r_hdr r) = true.
-  Hypothesis NR : no_region cfg (r_hdr r) = true.
   Hypothesis SV : serve cfg t uuid r = Ok (up, sts).
   Hypothesis PE : r_peer r = Some peer.
 
@@ -918,56 +1106,29 @@ Section OnDomain.
   Let r' := req_with_reqid cfg uuid r.
   Let SF := cfg_sane_facts cfg SANE.
 
-  Lemma od_regions :
-    F_cih_xrealip_forged cfg hdr = false /\
-    forall k, In k [canon_key (c_clientip cfg); canon_key (c_tlsheader cfg); K_XRI; K_XFP; K_XFPORT; K_XFH; K_FWD] ->
-              F_conn_lists hdr k = false.
-  Proof.
-    unfold no_region in NR. fold hdr in NR.
-    apply andb_true_iff in NR as [N3 N4].
-    apply negb_true_iff in N3, N4.
-    split; [exact N3|]. now apply existsb_false_forall.
-  Qed.
-
   Lemma od_hdr0 k : off k (c_reqid cfg) -> hfind (r_hdr r') k = hfind hdr k.
   Proof. intros O. unfold r'. cbn [req_with_reqid r_hdr]. now apply reqid_off. Qed.
 
   Lemma od_ctx :
     exists h, add_headers cfg (t_strip t) r' = Ok h /\
-      up = (if takes_ws_path h then wire h else rp_out peer h) /\ wf_hdr h = true /\
-      hfind h K_CONN = hfind hdr K_CONN /\ hget h K_UPGRADE = hget hdr K_UPGRADE.
+      up = (if takes_ws_path h then wire h else rp_out peer h) /\ wf_hdr h = true.
   Proof.
     destruct (serve_inv _ _ _ _ _ _ SV) as (peer' & h & P & A & U & _).
     assert (peer' = peer) by congruence. subst peer'.
     exists h. split; [exact A|]. split; [exact U|].
     apply add_headers_ok in A as (peer' & _ & ->). fold r'.
-    destruct SF as [C T R _ _ _].
-    split; [|split].
-    - apply wf_upto9. unfold r'. cbn [req_with_reqid r_hdr]. apply wf_cset. exact WF.
-    - rewrite upto9_other; auto with keys.
-      + apply od_hdr0. apply R. apply in_or_app. right. cbn; auto.
-      + apply C. cbn; auto 10.
-      + apply T. apply in_or_app. right. cbn; auto.
-    - apply hget_eq. rewrite upto9_other; auto with keys.
-      + apply od_hdr0. apply R. apply in_or_app. right. cbn; auto.
-      + apply C. cbn; auto 10.
-      + apply T. apply in_or_app. right. cbn; auto.
+    apply wf_upto10. unfold r'. cbn [req_with_reqid r_hdr]. apply wf_cset. exact WF.
   Qed.
 
-  (* transport of a managed key to the upstream *)
+  (* transport of a managed key to the upstream: whatever the client's Connection header says *)
   Lemma od_transport h k :
-    up = (if takes_ws_path h then wire h else rp_out peer h) -> wf_hdr h = true ->
-    hfind h K_CONN = hfind hdr K_CONN -> hget h K_UPGRADE = hget hdr K_UPGRADE ->
-    k <> K_XFF -> mem k hop_headers = false -> F_conn_lists hdr k = false ->
+    add_headers cfg (t_strip t) r' = Ok h ->
+    managed_key cfg k = true -> k <> K_XFF -> mem k hop_headers = false ->
     hfind up k = hfind h k.
   Proof.
-    intros -> Wh HC HU N Hp F.
-    destruct (takes_ws_path h) eqn:WS; [now rewrite wire_id|].
-    apply rp_out_other; auto.
-    assert (TK : conn_tokens h = conn_tokens hdr) by (unfold conn_tokens; now rewrite HC).
-    rewrite TK. unfold takes_ws_path in WS. rewrite HU in WS.
-    unfold F_conn_lists, is_ws in F. rewrite WS in F. cbn [negb andb] in F.
-    intros x I. apply beq_neq. exact (existsb_false_forall _ _ F x I).
+    intros A M N Hp.
+    destruct (serve_preserves cfg t uuid r up sts k SV WF M N Hp) as (p & h2 & _ & A2 & E).
+    fold r' in A2. rewrite A in A2. inversion A2. subst h2. exact E.
   Qed.
 
   Lemma od_hop_literals :
@@ -987,11 +1148,11 @@ Section OnDomain.
 
   Lemma od_xri : cl_xri hdr up peer = true.
   Proof.
-    destruct od_ctx as (h & A & U & Wh & HC & HU).
-    destruct SF as [C T R _ _ _]. destruct od_regions as (_ & FC).
+    destruct od_ctx as (h & A & U & Wh).
+    destruct SF as [C T R _ _ _].
     destruct od_hop_literals as (H1 & _).
     assert (E : hfind up K_XRI = hfind h K_XRI).
-    { apply (od_transport h K_XRI U Wh HC HU); auto with keys. apply FC. cbn; auto. }
+    { apply (od_transport h K_XRI A); auto with keys; reflexivity. }
     assert (O : off K_XRI (c_reqid cfg)) by (apply R; apply in_or_app; left; cbn; auto).
     assert (OT : off K_XRI (c_tlsheader cfg)) by (apply T; apply in_or_app; left; cbn; auto).
     destruct (xrealip_rule cfg (t_strip t) r' peer h A PE OT) as [L|[NE L]]; unfold cl_xri; rewrite E.
@@ -1004,16 +1165,18 @@ Section OnDomain.
   Lemma od_tls : sempty (c_tlsheader cfg) || cl_tls cfg (is_tls r) up = true.
   Proof.
     destruct (sempty (c_tlsheader cfg)) eqn:ETH; [reflexivity|]. cbn [orb].
-    destruct od_ctx as (h & A & U & Wh & HC & HU).
-    destruct SF as [C T R CT _ TH]. destruct od_regions as (_ & FC).
+    destruct od_ctx as (h & A & U & Wh).
+    destruct SF as [C T R CT _ TH].
     assert (NE : c_tlsheader cfg <> []) by (intros Z; rewrite Z in ETH; discriminate).
     assert (N1 : canon_key (c_tlsheader cfg) <> K_XFF).
     { destruct (T K_XFF) as [Z|Z]; [apply in_or_app; left; cbn; auto|congruence|exact Z]. }
     assert (E : hfind up (canon_key (c_tlsheader cfg)) = hfind h (canon_key (c_tlsheader cfg))).
-    { apply (od_transport h _ U Wh HC HU); auto.
-      - destruct TH; [congruence|auto].
-      - apply FC. cbn; auto. }
-    unfold cl_tls. rewrite E. rewrite (tls_header_iff_tls cfg _ r' h A NE).
+    { apply (od_transport h _ A); auto.
+      - apply managed_configured; auto.
+      - destruct TH; [congruence|auto]. }
+    assert (NC : canon_key (c_tlsheader cfg) <> K_CONN).
+    { destruct (T K_CONN) as [Z|Z]; [apply in_or_app; right; cbn; auto|congruence|exact Z]. }
+    unfold cl_tls. rewrite E. rewrite (tls_header_iff_tls cfg _ r' h A NE NC).
     change (is_tls r') with (is_tls r). destruct (is_tls r); apply veq_eq; reflexivity.
   Qed.
 
@@ -1027,11 +1190,11 @@ Section OnDomain.
   Lemma od_proto : negb (fresh hdr) || cl_proto (is_tls r) up = true.
   Proof.
     destruct (fresh hdr) eqn:F; [|reflexivity]. cbn [negb orb].
-    destruct od_ctx as (h & A & U & Wh & HC & HU).
-    destruct SF as [C T R _ _ _]. destruct od_regions as (_ & FC).
+    destruct od_ctx as (h & A & U & Wh).
+    destruct SF as [C T R _ _ _].
     destruct od_hop_literals as (_ & H2 & _).
     assert (E : hfind up K_XFP = hfind h K_XFP).
-    { apply (od_transport h K_XFP U Wh HC HU); auto with keys. apply FC. cbn; auto. }
+    { apply (od_transport h K_XFP A); auto with keys; reflexivity. }
     unfold cl_proto. rewrite E.
     rewrite (proto_truthful cfg _ r' h A (od_fresh F)).
     - apply veq_eq. reflexivity.
@@ -1043,11 +1206,11 @@ Section OnDomain.
   Lemma od_port : negb (sempty (hget hdr K_XFPORT)) || cl_port (r_host r) (is_tls r) up = true.
   Proof.
     destruct (hget hdr K_XFPORT) eqn:F; [|reflexivity]. cbn [sempty negb orb].
-    destruct od_ctx as (h & A & U & Wh & HC & HU).
-    destruct SF as [C T R _ _ _]. destruct od_regions as (_ & FC).
+    destruct od_ctx as (h & A & U & Wh).
+    destruct SF as [C T R _ _ _].
     destruct od_hop_literals as (_ & _ & H3 & _).
     assert (E : hfind up K_XFPORT = hfind h K_XFPORT).
-    { apply (od_transport h K_XFPORT U Wh HC HU); auto with keys. apply FC. cbn; auto 10. }
+    { apply (od_transport h K_XFPORT A); auto with keys; reflexivity. }
     unfold cl_port. rewrite E.
     rewrite (port_truthful cfg _ r' h A).
     - change (r_host r') with (r_host r).
@@ -1061,11 +1224,11 @@ Section OnDomain.
   Proof.
     destruct (hget hdr K_XFH) eqn:F; [|reflexivity]. cbn [sempty negb orb].
     destruct (sempty (r_host r)) eqn:EH; [reflexivity|]. cbn [orb].
-    destruct od_ctx as (h & A & U & Wh & HC & HU).
-    destruct SF as [C T R _ _ _]. destruct od_regions as (_ & FC).
+    destruct od_ctx as (h & A & U & Wh).
+    destruct SF as [C T R _ _ _].
     destruct od_hop_literals as (_ & _ & _ & H4 & _).
     assert (E : hfind up K_XFH = hfind h K_XFH).
-    { apply (od_transport h K_XFH U Wh HC HU); auto with keys. apply FC. cbn; auto 10. }
+    { apply (od_transport h K_XFH A); auto with keys; reflexivity. }
     unfold cl_host. rewrite E.
     rewrite (host_truthful cfg _ r' h A).
     - change (r_host r') with (r_host r). apply veq_eq. reflexivity.
@@ -1084,39 +1247,31 @@ Section OnDomain.
     assert (NE : c_clientip cfg <> []) by (intros Z; rewrite Z in EC; discriminate).
     destruct (beq (canon_key (c_clientip cfg)) K_XFF) eqn:B; [rewrite od_xff; apply orb_true_r|].
     apply beq_neq in B.
-    destruct od_ctx as (h & A & U & Wh & HC & HU).
-    destruct SF as [C T R CT CH _]. destruct od_regions as (F3 & FC).
+    destruct od_ctx as (h & A & U & Wh).
+    destruct SF as [C T R CT CH _].
     assert (E : hfind up (canon_key (c_clientip cfg)) = hfind h (canon_key (c_clientip cfg))).
-    { apply (od_transport h _ U Wh HC HU); auto.
-      - destruct CH; [congruence|auto].
-      - apply FC. cbn; auto. }
+    { apply (od_transport h _ A); auto.
+      - apply managed_configured; auto.
+      - destruct CH; [congruence|auto]. }
     unfold cl_clientip. rewrite E. apply veq_eq.
-    assert (OR : off K_XRI (c_reqid cfg)) by (apply R; apply in_or_app; left; cbn; auto).
-    destruct (beq (c_clientip cfg) K_XRI) eqn:EX.
-    - apply beq_eq in EX. rewrite EX. change (canon_key K_XRI) with K_XRI.
-      assert (OT : off K_XRI (c_tlsheader cfg)) by (apply T; apply in_or_app; left; cbn; auto).
-      destruct (xrealip_rule cfg (t_strip t) r' peer h A PE OT) as [L|[N L]]; [exact L|].
-      exfalso. rewrite (hget_eq _ hdr K_XRI (od_hdr0 K_XRI OR)) in N.
-      unfold F_cih_xrealip_forged in F3. rewrite EX, beq_refl in F3. cbn [andb] in F3.
-      destruct (hget hdr K_XRI); [congruence|discriminate].
-    - apply beq_neq in EX.
-      apply (clientip_overwritten cfg (t_strip t) r' peer h A PE NE); auto.
-      + intros Z. apply B. rewrite Z. reflexivity.
-      + assert (O : forall k, In k [K_XFP; K_XFPORT; K_XFH; K_XFPREFIX; K_FWD] -> canon_key (c_clientip cfg) <> k).
-        { intros k I. destruct (C k) as [Z|Z]; [cbn [In] in *; intuition|congruence|exact Z]. }
-        unfold mem. cbn [existsb].
-        rewrite (beq_false_of_neq _ _ B).
-        rewrite !beq_false_of_neq; [reflexivity|apply O; cbn; auto 10..].
-      + destruct CT; [congruence|auto].
+    apply (clientip_overwritten cfg (t_strip t) r' peer h A PE NE); auto.
+    + intros Z. apply B. rewrite Z. reflexivity.
+    + assert (O : forall k, In k [K_XFP; K_XFPORT; K_XFH; K_XFPREFIX; K_FWD] -> canon_key (c_clientip cfg) <> k).
+      { intros k I. destruct (C k) as [Z|Z]; [cbn [In] in *; intuition|congruence|exact Z]. }
+      unfold mem. cbn [existsb].
+      rewrite (beq_false_of_neq _ _ B).
+      rewrite !beq_false_of_neq; [reflexivity|apply O; cbn; auto 10..].
+    + destruct (C K_CONN) as [Z|Z]; [cbn; auto 10|congruence|exact Z].
+    + destruct CT; [congruence|auto].
   Qed.
 
   Lemma od_fwd : cl_fwd hdr peer (is_tls r) up = true.
   Proof.
-    destruct od_ctx as (h & A & U & Wh & HC & HU).
-    destruct SF as [C T R _ _ _]. destruct od_regions as (_ & FC).
+    destruct od_ctx as (h & A & U & Wh).
+    destruct SF as [C T R _ _ _].
     destruct od_hop_literals as (_ & _ & _ & _ & H5).
     assert (E : hfind up K_FWD = hfind h K_FWD).
-    { apply (od_transport h K_FWD U Wh HC HU); auto with keys. apply FC. cbn; auto 10. }
+    { apply (od_transport h K_FWD A); auto with keys; reflexivity. }
     assert (OC : off K_FWD (c_clientip cfg)) by (apply C; cbn; auto 10).
     assert (OC2 : off K_XFP (c_clientip cfg)) by (apply C; cbn; auto 10).
     assert (OT : off K_FWD (c_tlsheader cfg)) by (apply T; apply in_or_app; left; cbn; auto 10).
@@ -1167,15 +1322,38 @@ Qed.
 (* X-Forwarded-Host / -Port at the upstream describe the host the client asked for, WHATEVER
    the route's host= option says (the rewrite runs after addHeaders since 7dd13e1) *)
 Theorem serve_host_port_truthful cfg t uuid r peer up sts :
-  cfg_sane cfg = true -> wf_hdr (r_hdr r) = true -> no_region cfg (r_hdr r) = true ->
+  cfg_sane cfg = true -> wf_hdr (r_hdr r) = true ->
   serve cfg t uuid r = Ok (up, sts) -> r_peer r = Some peer ->
   (hget (r_hdr r) K_XFH = [] -> r_host r <> [] -> hfind up K_XFH = Some [r_host r]) /\
   (hget (r_hdr r) K_XFPORT = [] -> hfind up K_XFPORT = Some [local_port (r_host r) (is_tls r)]).
 Proof.
-  intros SA W NR S P. split.
-  - intros E N. pose proof (od_host cfg t uuid r peer up sts SA W NR S P) as H.
+  intros SA W S P. split.
+  - intros E N. pose proof (od_host cfg t uuid r peer up sts SA W S P) as H.
     rewrite E in H. cbn [sempty negb orb] in H.
     destruct (r_host r) eqn:EH; [congruence|]. cbn [sempty orb] in H. now apply veq_eq in H.
-  - intros E. pose proof (od_port cfg t uuid r peer up sts SA W NR S P) as H.
+  - intros E. pose proof (od_port cfg t uuid r peer up sts SA W S P) as H.
     rewrite E in H. cbn [sempty negb orb] in H. now apply veq_eq in H.
+Qed.
+
+(* The headers fabio sets reach the upstream whatever the client's Connection header names
+   (any case / spacing / repetition / number of values), stated on the clauses themselves:
+   client-IP header, X-Real-Ip and TLS header.  (These are three of the clauses of
+   [serve_clauses_on_domain]; [rp_keeps_managed] is the statement about the header map.) *)
+Theorem serve_managed_survive_connection cfg t uuid r peer up sts :
+  cfg_sane cfg = true -> wf_hdr (r_hdr r) = true ->
+  serve cfg t uuid r = Ok (up, sts) -> r_peer r = Some peer ->
+  (c_clientip cfg <> [] -> canon_key (c_clientip cfg) <> K_XFF -> hfind up (canon_key (c_clientip cfg)) = Some [peer]) /\
+  (c_tlsheader cfg <> [] ->
+   hfind up (canon_key (c_tlsheader cfg)) = if is_tls r then Some [c_tlsvalue cfg] else None) /\
+  cl_xri (r_hdr r) up peer = true.
+Proof.
+  intros SA W S P. split; [|split].
+  - intros NE NX. pose proof (od_cih cfg t uuid r peer up sts SA W S P) as H.
+    destruct (c_clientip cfg) eqn:E; [congruence|]. rewrite <- E in *. 
+    replace (sempty (c_clientip cfg)) with false in H by (rewrite E; reflexivity).
+    rewrite (beq_false_of_neq _ _ NX) in H. cbn [orb] in H. now apply veq_eq in H.
+  - intros NE. pose proof (od_tls cfg t uuid r peer up sts SA W S P) as H.
+    replace (sempty (c_tlsheader cfg)) with false in H by (destruct (c_tlsheader cfg); [congruence|reflexivity]).
+    cbn [orb] in H. unfold cl_tls in H. destruct (is_tls r); now apply veq_eq in H.
+  - exact (od_xri cfg t uuid r peer up sts SA W S P).
 Qed.
